@@ -1,6 +1,9 @@
 package protoprint
 
 import (
+	"buf.build/gen/go/bufbuild/protovalidate/protocolbuffers/go/buf/validate"
+	"github.com/pentops/j5/gen/j5/ext/v1/ext_j5pb"
+	"github.com/pentops/j5/gen/j5/list/v1/list_j5pb"
 	"github.com/pentops/j5/internal/j5s/protoprint/optionreflect"
 	"github.com/pentops/j5/lib/j5schema"
 	"google.golang.org/protobuf/proto"
@@ -138,4 +141,101 @@ func HarnessPrintFileDeterministic() {
 		}
 	}
 	verifAssert(got == want, "one-extend-block-per-extended-message")
+}
+
+// ---- options ----
+
+func verifFileProto(f protoreflect.FileDescriptor) *descriptorpb.FileDescriptorProto {
+	return j5schema.VerifFileProto(f)
+}
+
+// HarnessPrintFileOptions: printing of options. A field carries two or three
+// extension options, a message two; the real Builder.OptionsFor collects them
+// with Message.Range — whose order protobuf-go leaves open, and which the
+// harness chooses arbitrarily for every call — sorts them by source location or
+// extension index, and the printer renders them (parseOption, Simplify,
+// WalkOptionField, printOption, printFieldStyle). Two prints of the same
+// descriptor must be identical. The extensions are (buf.validate.field) and
+// (j5.list.v1.field), which have the same index in their files, plus
+// (j5.ext.v1.key); natively the replay uses the real extensions on a
+// protodesc-built descriptor.
+func HarnessPrintFileOptions() {
+	str := descriptorpb.FieldDescriptorProto_TYPE_STRING.Enum()
+	opt := descriptorpb.FieldDescriptorProto_LABEL_OPTIONAL.Enum()
+	withKey := ndBool("keyOption")
+	withMsgOpts := ndBool("messageOptions")
+	fieldOpts := &descriptorpb.FieldOptions{}
+	vOpt := &validate.FieldConstraints{Required: proto.Bool(true)}
+	lOpt := &list_j5pb.FieldConstraint{Type: &list_j5pb.FieldConstraint_String_{String_: &list_j5pb.StringRules{
+		WellKnown: &list_j5pb.StringRules_OpenText{OpenText: &list_j5pb.OpenTextRules{Searching: &list_j5pb.SearchingConstraint{Searchable: true}}}}}}
+	kOpt := &ext_j5pb.PSMKeyFieldOptions{PrimaryKey: true}
+	mOpt := &ext_j5pb.MessageOptions{Type: &ext_j5pb.MessageOptions_Object{Object: &ext_j5pb.ObjectMessageOptions{}}}
+	pOpt := &ext_j5pb.PSMOptions{EntityName: "thing"}
+	msgOpts := &descriptorpb.MessageOptions{}
+	fdp := &descriptorpb.FileDescriptorProto{Name: proto.String("p/v1/x.proto"), Package: proto.String("p.v1"), Syntax: proto.String("proto3"),
+		Dependency: []string{"buf/validate/validate.proto", "j5/ext/v1/annotations.proto", "j5/list/v1/annotations.proto"},
+		MessageType: []*descriptorpb.DescriptorProto{{Name: proto.String("M"), Options: msgOpts, Field: []*descriptorpb.FieldDescriptorProto{
+			{Name: proto.String("a"), Number: proto.Int32(1), Type: str, Label: opt, Options: fieldOpts},
+			{Name: proto.String("b"), Number: proto.Int32(2), Type: str, Label: opt},
+		}}}}
+	var file protoreflect.FileDescriptor
+	if verifNative() {
+		proto.SetExtension(fieldOpts, validate.E_Field, vOpt)
+		proto.SetExtension(fieldOpts, list_j5pb.E_Field, lOpt)
+		if withKey {
+			proto.SetExtension(fieldOpts, ext_j5pb.E_Key, kOpt)
+		}
+		if withMsgOpts {
+			proto.SetExtension(msgOpts, ext_j5pb.E_Message, mOpt)
+			proto.SetExtension(msgOpts, ext_j5pb.E_Psm, pOpt)
+		}
+		real, err := protodesc.NewFile(fdp, protoregistry.GlobalFiles)
+		if err != nil {
+			verifAssume(false) // a harness problem, not a finding
+		}
+		file = real
+	} else {
+		u := j5schema.VerifNewUniverse(fdp)
+		fo := []j5schema.VerifFakeOption{
+			{Desc: u.VerifFakeExtension("buf.validate", "field", 1159, 2, vOpt.ProtoReflect().Descriptor()), Value: protoreflect.ValueOfMessage(vOpt.ProtoReflect())},
+			{Desc: u.VerifFakeExtension("j5.list.v1", "field", 86510000, 2, lOpt.ProtoReflect().Descriptor()), Value: protoreflect.ValueOfMessage(lOpt.ProtoReflect())},
+		}
+		if withKey {
+			fo = append(fo, j5schema.VerifFakeOption{Desc: u.VerifFakeExtension("j5.ext.v1", "key", 555101, 1, kOpt.ProtoReflect().Descriptor()), Value: protoreflect.ValueOfMessage(kOpt.ProtoReflect())})
+		}
+		u.VerifSetFakeOptions("p.v1.M.a", fo)
+		if withMsgOpts {
+			u.VerifSetFakeOptions("p.v1.M", []j5schema.VerifFakeOption{
+				{Desc: u.VerifFakeExtension("j5.ext.v1", "message", 555000, 3, mOpt.ProtoReflect().Descriptor()), Value: protoreflect.ValueOfMessage(mOpt.ProtoReflect())},
+				{Desc: u.VerifFakeExtension("j5.ext.v1", "psm", 555101, 0, pOpt.ProtoReflect().Descriptor()), Value: protoreflect.ValueOfMessage(pOpt.ProtoReflect())},
+			})
+		}
+		// every Range over an options message picks its own order
+		u.OptionOrder = func(n int) []int {
+			switch n {
+			case 2:
+				return [][]int{{0, 1}, {1, 0}}[ndChoice("rangeOrder2", 2)]
+			case 3:
+				return [][]int{{0, 1, 2}, {0, 2, 1}, {1, 0, 2}, {1, 2, 0}, {2, 0, 1}, {2, 1, 0}}[ndChoice("rangeOrder3", 6)]
+			}
+			order := make([]int, n)
+			for i := range order {
+				order[i] = i
+			}
+			return order
+		}
+		file = u.Files[0]
+	}
+	verifTermBudget(6000000)
+	first, err1 := printFile(file, "generated")
+	second, err2 := printFile(file, "generated")
+	verifEndTermBudget()
+	verifAssert(err1 == nil && err2 == nil, "file-with-options-printed")
+	if err1 != nil || err2 != nil {
+		return
+	}
+	if verifParam("debug", 0) == 1 {
+		verifAssert(string(first) == "", "DEBUG:"+string(first))
+	}
+	verifAssert(string(first) == string(second), "two-prints-of-the-options-identical")
 }
